@@ -75,7 +75,7 @@ func (r *Run) lockKey(fn *Func, x ast.Expr) string {
 	if se, ok := ast.Unparen(x).(*ast.SelectorExpr); ok {
 		if sel, ok := fn.Info().Selections[se]; ok && sel.Kind() == types.FieldVal {
 			if nt, ok := derefNamedT(sel.Recv()); ok {
-				return r.P.OwnerName(nt) + "." + r.P.FieldName(sel.Obj().(*types.Var))
+				return r.P.FieldKey(nt, sel.Obj().(*types.Var))
 			}
 		}
 	}
@@ -584,10 +584,59 @@ func isConstructorLike(fn *Func) bool {
 		return false
 	}
 	n := fn.Obj.Name()
-	if fn.Recv == nil {
-		return strings.HasPrefix(n, "New") || strings.HasPrefix(n, "new")
+	if fn.Recv == nil && (strings.HasPrefix(n, "New") || strings.HasPrefix(n, "new")) {
+		return true
 	}
-	return n == "init" // sync.Once initialiser
+	return onceOnly(fn) // sync.Once initialiser, whatever it is called
+}
+
+var onceOnlyMemo = map[*types.Func]bool{}
+
+// onceOnly: every use of the function is as the initialiser of a sync.Once — handed to Do as a method
+// or function value, or called inside a literal handed to Do.
+func onceOnly(fn *Func) bool {
+	if v, ok := onceOnlyMemo[fn.Obj]; ok {
+		return v
+	}
+	uses, all := 0, true
+	isOnceDo := func(info *types.Info, call *ast.CallExpr) bool {
+		f, ok := calleeObj(info, call).(*types.Func)
+		return ok && f.FullName() == "(*sync.Once).Do"
+	}
+	for _, g := range fn.progFuncs {
+		if g.Body == nil {
+			continue
+		}
+		info := g.Info()
+		var stack []ast.Node
+		ast.Inspect(g.Body, func(n ast.Node) bool {
+			if n == nil {
+				stack = stack[:len(stack)-1]
+				return true
+			}
+			stack = append(stack, n)
+			id, ok := n.(*ast.Ident)
+			if !ok || info.Uses[id] != types.Object(fn.Obj) {
+				return true
+			}
+			uses++
+			ok = false
+			for i := len(stack) - 1; i >= 0 && !ok; i-- {
+				if call, isCall := stack[i].(*ast.CallExpr); isCall && isOnceDo(info, call) && len(call.Args) == 1 {
+					// directly the argument (s.init), or anywhere inside the literal that is the argument
+					a := ast.Unparen(call.Args[0])
+					if i+1 < len(stack) && (stack[i+1] == a || stack[i+1] == call.Args[0]) {
+						ok = true
+					}
+				}
+			}
+			all = all && ok
+			return true
+		})
+	}
+	res := uses > 0 && all
+	onceOnlyMemo[fn.Obj] = res
+	return res
 }
 
 func ruleGuardedBy(r *Run) {
@@ -740,6 +789,9 @@ func (r *Run) checkOwnerConfined(name, why string, as []fieldAccess) {
 		// module cleanup walks the leaver's own ids through the module's own participant
 		if strings.HasPrefix(a.Base, "recv.currentParticipant") {
 			ok = true
+		}
+		if !ok && strings.HasPrefix(a.Base, "param:") && a.Fn != nil && a.Fn.Obj != nil && r.P.isGlue(a.Fn.Obj) && len(r.callersOf(a.Fn.Obj)) > 0 {
+			continue // a helper that is handed the object: judged where it is called, with the parameter bound
 		}
 		r.Check("F2", fmt.Sprintf("%s:via[%s]", name, a.Fn.Name), ok, a.Pos, "%s (%s) is reached through %q in %s; expected only the owning connection's own participant", name, why, a.Base, a.Fn.Name)
 	}
